@@ -20,6 +20,10 @@ type controlPlaneDNSRuntime struct {
 	dnsController             *DnsController
 	dnsRouting                *dns.Dns
 	dnsFixedDomainTtl         map[string]int
+	dnsOptimisticCache        bool
+	dnsOptimisticCacheTtl     int
+	dnsMaxCacheSize           int
+	dnsIpVersionPrefer        int
 	dnsListener               *DNSListener
 	dnsListenerStopRegistered bool
 	delayDNSListenerStart     bool
